@@ -57,6 +57,15 @@ func (p *Proof) IsValid(public Public) bool {
 	if p == nil {
 		return false
 	}
+	// every field is needed below: a proof with a missing field is not valid
+	if p.Commitment == nil ||
+		p.Z == nil ||
+		p.U == nil ||
+		p.V == nil ||
+		p.A == nil ||
+		p.B == nil {
+		return false
+	}
 	if !arith.IsValidNatModN(public.Prover.N(), p.U, p.V) {
 		return false
 	}
